@@ -440,6 +440,26 @@ func (a *effect) call(ci ssa.CallInstruction) {
 		a.ext[name+" (source argument only)"]++
 		return
 	}
+	// maps.Copy(dst, src) / copy-like library functions: write their first argument, read the second (the values
+	// stored are shared with src: dst then holds what src holds)
+	if strings.HasPrefix(name, "maps.Copy") || strings.HasPrefix(name, "maps.Insert") {
+		if a.fl[cc.Args[0]]&flR != 0 {
+			a.report(ci, "maps.Copy into a map reachable from an input argument")
+		}
+		if len(cc.Args) > 1 && a.fl[cc.Args[1]] != 0 {
+			a.add(cc.Args[0], flH)
+			a.setLoc("E:" + cc.Args[0].Type().String())
+		}
+		a.ext[name+" (destination written, source read)"]++
+		return
+	}
+	if strings.HasPrefix(name, "maps.Clone") || strings.HasPrefix(name, "slices.Clone") || strings.HasPrefix(name, "maps.Keys") || strings.HasPrefix(name, "maps.Values") || strings.HasPrefix(name, "slices.Equal") || strings.HasPrefix(name, "maps.Equal") || strings.HasPrefix(name, "slices.Compare") {
+		if v, isV := ci.(ssa.Value); isV && strings.Contains(name, "Clone") {
+			a.add(v, flH) // a shallow copy: its elements are the input's
+		}
+		a.ext[name]++
+		return
+	}
 	if strings.HasPrefix(name, "sort.") || strings.HasPrefix(name, "slices.Sort") {
 		if a.fl[cc.Args[0]]&flR != 0 {
 			a.report(ci, "in-place sort of a slice reachable from an input argument")
